@@ -6,6 +6,15 @@ func register(c *PropConfig) { propConfigs[c.ID] = c }
 
 func init() {
 	register(&PropConfig{
+		ID:       "C11",
+		Replay:   replayC11,
+		Packages: []string{"."},
+		Assume: []string{
+			"http.ResponseWriter is modelled by its operation trace (Header().Set, WriteHeader, Write, http.Error, delegate ServeHTTP); what a configured error handler writes is one opaque delegate event",
+			"the component is arbitrary: only the interface contract of Component.Render is assumed (append-only output, error iff a callee failed)",
+		},
+	})
+	register(&PropConfig{
 		ID:       "C03",
 		Replay:   replayC03,
 		Packages: []string{"./runtime", "."},
